@@ -9,6 +9,16 @@ def unique_id() -> str:
     return "".join(random.choices("abcdefghijklmnopqrstuvwxyz", k=10))
 
 
+def int_literal(value: int) -> expr:
+    """
+    An integer as the parser would read it: a negative number is not a
+    literal but a minus sign applied to one.
+    """
+    if value < 0:
+        return UnaryOp(op=USub(), operand=Constant(value=-value))
+    return Constant(value=value)
+
+
 def convert_slice(_slice: Slice) -> Call:
     """
     Convert slice expt to a call of slice function
